@@ -305,6 +305,24 @@ def gen_pipeline(rng):
     return {"kind": "pipeline", "hex": b"".join(parts).hex()}
 
 
+def response_real_case(case):
+    """input disabled, a watcher response of a given size (page-sized and multiples included) must reach a REAL child
+    whole: `head -c N | wc -c` prints N"""
+    from invoke import Context, Config
+    from invoke.watchers import Responder
+    from invoke.exceptions import CommandTimedOut
+    n = case["n"]
+    try:
+        r = Context(Config()).run("printf 'go? '; head -c %d | wc -c" % n, watchers=[Responder("go\\? ", "x" * n)],
+                                  in_stream=False, hide=True, timeout=8, pty=False)
+    except CommandTimedOut:
+        return "a watcher response of %d bytes never reached the command (it was still waiting when the timeout hit)" % n
+    got = r.stdout.replace("go? ", "").strip()
+    if got != str(n):
+        return "a watcher response of %d bytes: the command counted %r bytes" % (n, got)
+    return None
+
+
 def overlap_case(case):
     """SCHEDULE: several runs are alive at the same time in one process (asynchronous runs on separate runner objects),
     each forwarding its own input in its own encoding; the inputs are released one after the other, in a given order:
@@ -417,6 +435,8 @@ def replay(case):
         why = guarded(encode_case, case)
     elif k == "overlap":
         why = guarded(overlap_case, case)
+    elif k == "resp_real":
+        why = guarded(response_real_case, case)
     elif k == "pipeline":
         why = guarded(pipeline_case, case)
     elif "sched" in case:
@@ -470,6 +490,9 @@ def run(ctx):
         extra.append({"kind": "reuse_stream", "runs": runs})
     for how in ("sys.stdin", "explicit"):
         extra.append({"kind": "async", "how": how, "text": "hello é\n"})
+    # watcher responses of page-sized lengths to a real child (in_stream=False: "watcher responses still get through")
+    for n in ([1, 4095, 4096, 4097, 8192] if not ctx.thorough else [1, 511, 512, 4095, 4096, 4097, 8191, 8192, 12288, 65536]):
+        extra.append({"kind": "resp_real", "n": n})
     # runs whose lifetimes overlap (asynchronous), same and different encodings, inputs released in every order
     for _ in range(ctx.n(10, 80)):
         k = rng.choice([2, 2, 3])
